@@ -35,3 +35,11 @@ chk('C08', 'exploration',
     'Generated contents of nine classes and lengths from 1 character to 16 symbols x version or symbol_count x level x boost x mask x encoding: every returned symbol is checked structurally (C02), by syndromes (C03) and decoded; header position/total/parity, the concatenated payload and the symbol count / version promises are compared with the statement; refusals are judged by a per-symbol capacity model. One known finding (K3, 16-symbol limit of the version path) is matched narrowly.',
     'Trusted: reference decoder, capacity model. Sampled; per-symbol boundary lengths for versions 1-4 (1-10 thorough) enumerated.',
     'Hypothesis search + boundary enumeration, reassembly through an independent reference decoder', 'DESIGN.md 4/C08')
+chk('C09', 'exploration',
+    'Generated symbol x kind x scale x border x colour x option combinations are written by segno and parsed by independent readers (PNG chunks/CRC/filters/palette, Netpbm, XBM, XPM, text, ANSI, half-block terminal); every pixel / cell is compared with the module grid including the quiet zone; scale < 1 must be refused. The colour combinations which select PAM tuple types / PNG colour types are enumerated.',
+    'Trusted: vlib/raster.py readers (self-tested on hand-written files), vlib/colors.py. Sampled; large images are limited to ~520 pixels wide.',
+    'Hypothesis search, output parsed by independent format readers and compared pixel by pixel', 'DESIGN.md 4/C09')
+chk('C10', 'exploration',
+    'Generated symbol x kind x integer/fractional scale x border x colour x SVG/TeX/PDF option combinations are written by segno and interpreted by independent SVG / PostScript / PDF / PGF interpreters with exact Fractions; the painted unit squares must equal the dark modules (once each, nothing outside), page size, colours, background coverage, PDF /Length and xref offsets are checked. A grid of 29 scales x light on/off x 4 kinds is enumerated.',
+    'Trusted: vlib/vector.py interpreters (self-tested on hand-written documents); tolerance 1e-6 for printed floats.',
+    'Hypothesis search, documents interpreted and rasterised on the module grid by independent readers', 'DESIGN.md 4/C10')
